@@ -47,6 +47,9 @@ func c01Scenario(h http.Handler, kind int, integrity bool) {
 	body := vsym.Bytes("body", n)
 	key := "k" + vsym.String("key", 1)
 	vsym.Assume(key[1] != '/')
+	if kind == kindFsMulti || kind == kindFsSingle {
+		vsym.Assume(fsKeyOK(key)) // key domain of the fs backends
+	}
 
 	// metadata: presence flags and values are free
 	meta := map[string]string{}
